@@ -676,6 +676,7 @@ class Normalizer:
         self.stats = {'inlined': 0, 'unrolled': 0, 'lookups': 0, 'functions': 0}
         self.inlined_names = set()
         self._scopes = {}
+        self._stores = None
 
     # ---- driver
     def run(self):
@@ -708,6 +709,7 @@ class Normalizer:
             body = self.unroll_block(body, fi)
             body = fold_trivial(body)
             body = attribute_aliases(body)
+            body = self.copy_propagate(body, fi)
             body = canon_block(body)
             body = lift_ifexp(body)
             if not body:
@@ -1155,6 +1157,205 @@ class Normalizer:
         if isinstance(e, ast.JoinedStr):
             return e
         return e
+
+    # ---- copy propagation of attribute reads
+    def _callees(self, call: ast.Call, fi: FuncInfo):
+        """Functions a call may reach: own hierarchy for self / cls receivers, every method of that name for other receivers,
+        the resolved function or the constructor chain for plain names.  None = unknown callee of the application (external
+        callees return an empty list: they cannot re-bind attributes of kernpy objects other than through callbacks)."""
+        prog = self.prog
+        f = call.func
+        out = []
+        if isinstance(f, ast.Name):
+            if f.id in ('setattr', 'delattr', 'exec', 'eval'):
+                return None
+            if f.id in self.scope_info(fi)['defs']:
+                return [FuncInfo(fi.module, self.scope_info(fi)['defs'][f.id], fi.cls, outer=fi)]
+            if f.id in self.scope_info(fi)['locals']:
+                # a callable held in a local or a parameter (a predicate, a conversion callback): assumed not to re-bind
+                # attributes of the objects the caller is working on
+                return [] if f.id not in ('cls',) else self._ctor(fi.cls)
+            b = prog.resolve(fi.module, f.id)
+            if b is None or b.kind in ('external', 'module'):
+                return []
+            if b.kind == 'def':
+                return [b.value]
+            if b.kind == 'class':
+                return self._ctor(b.value)
+            return None
+        if isinstance(f, ast.Attribute):
+            v = f.value
+            if isinstance(v, ast.Name) and v.id in ('self', 'cls') and fi.cls is not None:
+                cs = set(prog.mro(fi.cls)) | set(prog.subclasses(fi.cls))
+                out = [c.methods[f.attr] for c in cs if f.attr in c.methods]
+                if out:
+                    return out
+            if isinstance(v, ast.Call) and isinstance(v.func, ast.Name) and v.func.id == 'super' and fi.cls is not None:
+                return [c.methods[f.attr] for c in prog.mro(fi.cls)[1:] if f.attr in c.methods]
+            r = prog.resolve_expr(fi.module, v, None) if isinstance(v, (ast.Name, ast.Attribute)) and not \
+                (isinstance(v, ast.Name) and v.id in self.scope_info(fi)['locals']) else None
+            if r is not None and r[0] == 'external':
+                return []
+            if r is not None and r[0] == 'class':
+                m = prog.find_method(r[1], f.attr)
+                return [m] if m is not None else []
+            if r is not None and r[0] == 'module':
+                tm = prog.modules.get(r[1])
+                b = prog.resolve(tm, f.attr) if tm is not None else None
+                if b is not None and b.kind == 'def':
+                    return [b.value]
+                if b is not None and b.kind == 'class':
+                    return self._ctor(b.value)
+                return []
+            return [c.methods[f.attr] for c in prog.classes.values() if f.attr in c.methods and not c.module.generated and not c.module.legacy]
+        return None
+
+    def _ctor(self, ci):
+        if ci is None:
+            return None
+        return [c.methods['__init__'] for c in self.prog.mro(ci) if '__init__' in c.methods][:1]
+
+    def store_closure(self):
+        """id(function node) -> attribute names the function may (transitively) re-bind on an object that already exists
+        ('*' when a callee cannot be resolved)."""
+        if self._stores is None:
+            direct, calls, infos = {}, {}, {}
+            todo = [f for f in self.prog.functions.values() if not f.module.generated and not f.module.legacy and not isinstance(f.node, ast.Lambda)]
+            for f in todo:
+                k = id(f.node)
+                if k in infos:
+                    continue
+                infos[k] = f
+                d = direct.setdefault(k, set())
+                c = calls.setdefault(k, [])
+                fresh_self = f.name == '__init__' and f.params[:1] == ['self']      # stores into the object under construction
+                fresh = set()           # locals bound (only) to objects constructed in this function
+                bound = {}
+                for n in ast.walk(f.node):
+                    if isinstance(n, ast.Assign):
+                        for t in n.targets:
+                            if isinstance(t, ast.Name):
+                                bound.setdefault(t.id, []).append(n.value)
+                for nm_, vals in bound.items():
+                    if all(isinstance(v, ast.Call) and isinstance(v.func, ast.Name) and
+                           (v.func.id == 'cls' or (self.prog.resolve(f.module, v.func.id) is not None
+                                                   and self.prog.resolve(f.module, v.func.id).kind == 'class')) for v in vals):
+                        fresh.add(nm_)
+                for n in ast.walk(f.node):
+                    if isinstance(n, ast.Attribute) and isinstance(n.ctx, (ast.Store, ast.Del)):
+                        if fresh_self and isinstance(n.value, ast.Name) and n.value.id == 'self':
+                            continue
+                        if isinstance(n.value, ast.Name) and n.value.id in fresh and n.value.id not in f.all_params:
+                            continue
+                        d.add(n.attr)
+                    elif isinstance(n, ast.Call):
+                        cs = self._callees(n, f)
+                        if cs is None:
+                            d.add('*')
+                        else:
+                            c.extend(id(x.node) for x in cs)
+            clo = {k: set(v) for k, v in direct.items()}
+            changed = True
+            while changed:
+                changed = False
+                for k, cs in calls.items():
+                    cur = clo[k]
+                    for c in cs:
+                        add = clo.get(c)
+                        if add and not add <= cur:
+                            cur |= add
+                            changed = True
+            self._stores = clo
+        return self._stores
+
+    def copy_propagate(self, stmts: list, fi: FuncInfo) -> list:
+        """`x = self.a.b` (a pure attribute chain, x bound once) ... uses of x  ->  uses of `self.a.b`, when nothing between the
+        binding and the end of its block can re-bind an attribute of the chain or a name it starts from."""
+        if isinstance(fi.node, ast.Lambda):
+            return stmts
+        whole = ast.Module(body=stmts, type_ignores=[])
+        counts = {}
+        for n in ast.walk(whole):
+            if isinstance(n, ast.Name) and isinstance(n.ctx, (ast.Store, ast.Del)):
+                counts[n.id] = counts.get(n.id, 0) + 1
+            elif isinstance(n, ast.ExceptHandler) and n.name:
+                counts[n.name] = counts.get(n.name, 0) + 2
+            elif isinstance(n, (ast.Global, ast.Nonlocal)):
+                for nm in n.names:
+                    counts[nm] = counts.get(nm, 0) + 2
+        params = set(fi.all_params)
+
+        def chain(e):
+            names = []
+            while isinstance(e, ast.Attribute):
+                names.append(e.attr)
+                e = e.value
+            return (e.id, names) if isinstance(e, ast.Name) and names else None
+
+        def process(block: list) -> list:
+            i = 0
+            block = list(block)
+            while i < len(block):
+                st = block[i]
+                for field in ('body', 'orelse', 'finalbody'):
+                    v = getattr(st, field, None)
+                    if isinstance(v, list) and v and isinstance(v[0], ast.stmt) and not isinstance(st, (ast.FunctionDef, ast.AsyncFunctionDef, ast.ClassDef)):
+                        setattr(st, field, process(v))
+                if isinstance(st, ast.Try):
+                    for h in st.handlers:
+                        h.body = process(h.body)
+                nm, val = _single_name_assign(st)
+                ch = chain(val) if nm is not None else None
+                if nm is None or ch is None or counts.get(nm) != 1 or nm in params or nm == ch[0]:
+                    i += 1
+                    continue
+                base, attrs = ch
+                region = block[i + 1:]
+                # every use of the name lies in the region
+                n_uses = sum(1 for n in ast.walk(whole) if isinstance(n, ast.Name) and n.id == nm and isinstance(n.ctx, ast.Load))
+                r_uses = sum(1 for t in region for n in ast.walk(t) if isinstance(n, ast.Name) and n.id == nm and isinstance(n.ctx, ast.Load))
+                if n_uses != r_uses or n_uses == 0:
+                    i += 1
+                    continue
+                if has_node(region, (ast.FunctionDef, ast.AsyncFunctionDef, ast.Lambda, ast.ClassDef)) and \
+                        any(mentions(nm, n) for t in region for n in ast.walk(t) if isinstance(n, (ast.FunctionDef, ast.Lambda))):
+                    i += 1
+                    continue
+                safe = True
+                blockers = []
+                clo = self.store_closure()
+                # inside a loop the region also runs again AFTER later statements of the loop body: the enclosing function is
+                # scanned for re-binding of the base name instead of the region only
+                for t in region:
+                    for n in ast.walk(t):
+                        if isinstance(n, ast.Name) and n.id == base and isinstance(n.ctx, (ast.Store, ast.Del)):
+                            safe = False
+                        elif isinstance(n, ast.Attribute) and isinstance(n.ctx, (ast.Store, ast.Del)) and n.attr in attrs:
+                            safe = False
+                        elif isinstance(n, ast.Call):
+                            cs = self._callees(n, fi)
+                            if cs is None:
+                                safe = False
+                            else:
+                                for c_ in cs:
+                                    st_ = clo.get(id(c_.node), set())
+                                    if '*' in st_ or (st_ & set(attrs)):
+                                        safe = False
+                                        blockers.append(c_.qualname)
+                if not safe:
+                    if os.environ.get('KPSA_DEBUG_COPY'):
+                        print(f'copy of {nm} = {ast.unparse(val)} blocked in {fi.qualname}: {sorted(set(blockers))[:6]}')
+                    i += 1
+                    continue
+                rep = {nm: val}
+                new_region = [Subst(rep).visit(t) for t in region]
+                for t in new_region:
+                    ast.fix_missing_locations(t)
+                block = block[:i] + new_region
+                self.stats['copies'] = self.stats.get('copies', 0) + 1
+                # do not advance: block[i] is now the first statement of the old region
+            return block
+        return process(stmts)
 
     # ---- 3. constant tables
     def const_table(self, node, fi: FuncInfo):
